@@ -221,12 +221,25 @@ func TestC17_Matrix(t *testing.T) {
 // Sign / SignDigest / Verify / VerifyDigest equivalence
 
 type c17DigestCase struct {
-	Key refcose.KeyMat `json:"key"` // Alg may differ from the curve's natural algorithm (cross use is allowed)
-	Msg rc.Hex         `json:"msg"`
+	Key    refcose.KeyMat `json:"key"` // Alg may differ from the curve's natural algorithm (cross use is allowed)
+	Msg    rc.Hex         `json:"msg"`
+	Opaque bool           `json:"opaque,omitempty"` // the signer gets the key only as an opaque crypto.Signer (HSM / KMS style)
+}
+
+// opaqueSigner hides the concrete key type behind crypto.Signer.
+type opaqueSigner struct{ inner crypto.Signer }
+
+func (o opaqueSigner) Public() crypto.PublicKey { return o.inner.Public() }
+func (o opaqueSigner) Sign(r io.Reader, d []byte, opts crypto.SignerOpts) ([]byte, error) {
+	return o.inner.Sign(r, d, opts)
 }
 
 func checkC17Digest(c c17DigestCase) error {
 	sg, err := libSigner(c.Key, false)
+	if c.Opaque {
+		sg, err = cose.NewSigner(cose.Algorithm(c.Key.Alg), opaqueSigner{c.Key.Private()})
+		stats.Class("digest-equivalence/opaque-crypto-signer")
+	}
 	if err != nil {
 		return finding("newsigner", "%v", err)
 	}
@@ -301,7 +314,7 @@ func TestC17_Digest(t *testing.T) {
 		if km.Family() == "ec" && rapid.IntRange(0, 3).Draw(rt, "cross-curve") == 0 {
 			km.Curve = rapid.SampledFrom([]int{256, 384, 521}).Draw(rt, "curve")
 		}
-		c := c17DigestCase{Key: km, Msg: gen.Blob(rt, "msg", gen.BoundaryLen(rt, "msglen", false))}
+		c := c17DigestCase{Key: km, Msg: gen.Blob(rt, "msg", gen.BoundaryLen(rt, "msglen", false)), Opaque: rapid.IntRange(0, 2).Draw(rt, "opaque") == 0}
 		if c.Msg == nil {
 			c.Msg = rc.Hex{}
 		}
@@ -311,4 +324,93 @@ func TestC17_Digest(t *testing.T) {
 		}
 		judge(rt, "c17digest", c, checkC17Digest)
 	})
+}
+
+// ---------------------------------------------------------------------------
+// sequences of calls on one key struct that the caller updates in place
+
+type c17SeqCase struct {
+	Alg   int64    `json:"alg"`
+	Side  string   `json:"side"`
+	Steps []string `json:"steps"` // key names, copied one after the other into the SAME key struct
+}
+
+func checkC17Seq(c c17SeqCase) error {
+	alg := cose.Algorithm(c.Alg)
+	ecSlot := &ecdsa.PublicKey{}
+	rsaSlot := &rsa.PublicKey{}
+	for i, name := range c.Steps {
+		k := c17KeyByName(name)
+		if k == nil {
+			return fmt.Errorf("harness: unknown key %q", name)
+		}
+		var pub crypto.PublicKey
+		switch p := k.Pub.(type) {
+		case *ecdsa.PublicKey:
+			*ecSlot = *p
+			pub = ecSlot
+		case *rsa.PublicKey:
+			*rsaSlot = *p
+			pub = rsaSlot
+		default:
+			return fmt.Errorf("harness: key %q cannot be updated in place", name)
+		}
+		var err error
+		if c.Side == "verifier" {
+			_, err = cose.NewVerifier(alg, pub)
+		} else {
+			_, err = cose.NewSigner(alg, &bridge.StubCryptoSigner{Pub: pub, SignFn: func(io.Reader, []byte, crypto.SignerOpts) ([]byte, error) { return nil, errors.New("stub") }})
+		}
+		fam := algFamily(c.Alg)
+		want := fam == k.Family && (fam != "rsa" || k.RSAOK) && (fam != "ec" || c.Side != "verifier" || k.ECDHOK)
+		if (err == nil) != want {
+			return finding("stale-key-validation", "step %d of %v: New%s(%v, <same key struct, now holding %s>) err=%v, model says success=%v (the key must be validated on every call)", i, c.Steps, c.Side, alg, name, err, want)
+		}
+	}
+	stats.Class("sequence/" + c.Side)
+	return nil
+}
+
+func init() { register("c17seq", checkC17Seq) }
+
+func TestC17_Sequences(t *testing.T) {
+	begin(t, "C17", "sequences")
+	var ec, rs []string
+	for _, k := range c17Keys() {
+		switch k.Pub.(type) {
+		case *ecdsa.PublicKey:
+			ec = append(ec, k.Name)
+		case *rsa.PublicKey:
+			rs = append(rs, k.Name)
+		}
+	}
+	n := 0
+	run := func(c c17SeqCase) {
+		n++
+		stats.Eval()
+		judge(t, "c17seq", c, checkC17Seq)
+		stats.NTBytes([]byte(fmt.Sprint(c)))
+		if n%97 == 0 {
+			stats.Sample("sequence", c)
+		}
+	}
+	for _, side := range []string{"verifier", "signer"} {
+		for _, alg := range []int64{refcose.AlgES256, refcose.AlgES384, refcose.AlgES512} {
+			for _, a := range ec {
+				for _, b := range ec {
+					for _, c3 := range ec {
+						run(c17SeqCase{Alg: alg, Side: side, Steps: []string{a, b, c3}})
+					}
+				}
+			}
+		}
+		for _, alg := range []int64{refcose.AlgPS256, refcose.AlgPS512} {
+			for _, a := range rs {
+				for _, b := range rs {
+					run(c17SeqCase{Alg: alg, Side: side, Steps: []string{a, b, a}})
+				}
+			}
+		}
+	}
+	stats.ExhaustivePart("in-place key update sequences", n)
 }
